@@ -508,7 +508,9 @@ class TopCollector(ScoredCollector):
                 items.pop(i)
                 # Restore the heap invariant
                 heapify(items)
-                self.minscore = items[0][0] if items else 0
+                # The list is no longer full, so any score can make it again
+                self.minscore = (items[0][0] if len(items) >= self.limit
+                                 else 0)
                 return
 
     def results(self):
